@@ -101,9 +101,12 @@ def coq_sources():
     return out
 
 
-def scan_forbidden():
+def scan_forbidden(only=None):
+    """grep the development (or only the files a property depends on) for forbidden constructs"""
     bad = []
     for p in coq_sources():
+        if only is not None and os.path.relpath(p, COQ) not in only:
+            continue
         txt = open(p).read()
         # strip comments (non-nested handling is enough: we never put the words in comments on purpose)
         txt2 = re.sub(r"\(\*.*?\*\)", "", txt, flags=re.S)
